@@ -1,4 +1,4 @@
-(* GENERATED on every run by checks/C12.py from the live operators of /repo -- do not edit *)
+(* GENERATED on every run by checks/C12.py from the live operators of /tmp/wt-shapeinfer -- do not edit *)
 From Coq Require Import String List.
 From RV Require Import Prelude.
 From TypeInfer Require Import TypeInferModel.
@@ -6,213 +6,5 @@ Import ListNotations.
 Open Scope string_scope.
 
 Definition op_type_rules : rules_table := [
-  ("Cast#to=i:1", (1%nat, (Some [Fixed (VTensor DFloat)])));
-  ("Cast#to=i:2", (1%nat, (Some [Fixed (VTensor DUInt8)])));
-  ("Cast#to=i:3", (1%nat, (Some [Fixed (VTensor DInt8)])));
-  ("Cast#to=i:6", (1%nat, (Some [Fixed (VTensor DInt32)])));
-  ("Cast#to=i:7", (1%nat, (Some [Fixed (VTensor DInt32)])));
-  ("Cast#to=i:9", (1%nat, (Some [Fixed (VTensor DInt32)])));
-  ("Cast#to=i:10", (1%nat, (Some [Fixed (VTensor DFloat)])));
-  ("Cast#to=i:11", (1%nat, (Some [Fixed (VTensor DFloat)])));
-  ("ConstantOfShape#value=t:f:1:1", (1%nat, (Some [Fixed (VTensor DFloat)])));
-  ("EyeLike#dtype=i:1", (1%nat, (Some [Fixed (VTensor DFloat)])));
-  ("ConstantOfShape#value=t:i:1:1", (1%nat, (Some [Fixed (VTensor DInt32)])));
-  ("EyeLike#dtype=i:6", (1%nat, (Some [Fixed (VTensor DInt32)])));
-  ("ConstantOfShape#value=t:b:1:1", (1%nat, (Some [Fixed (VTensor DInt8)])));
-  ("EyeLike#dtype=i:3", (1%nat, (Some [Fixed (VTensor DInt8)])));
-  ("ConstantOfShape#value=t:u:1:1", (1%nat, (Some [Fixed (VTensor DUInt8)])));
-  ("EyeLike#dtype=i:2", (1%nat, (Some [Fixed (VTensor DUInt8)])));
-  ("ConstantOfShape#-", (1%nat, (Some [Fixed (VTensor DFloat)])));
-  ("EyeLike#-", (1%nat, (Some [CopyFromInput 0])));
-  ("IsNaN#-", (1%nat, (Some [Fixed (VTensor DInt32)])));
-  ("IsInf#-", (1%nat, (Some [Fixed (VTensor DInt32)])));
-  ("Not#-", (1%nat, (Some [Fixed (VTensor DInt32)])));
-  ("Sign#-", (1%nat, (Some [CopyFromInput 0])));
-  ("Round#-", (1%nat, (Some [CopyFromInput 0])));
-  ("Shape#-", (1%nat, (Some [Fixed (VTensor DInt32)])));
-  ("Size#-", (1%nat, (Some [Fixed (VTensor DInt32)])));
-  ("NonZero#-", (1%nat, (Some [Fixed (VTensor DInt32)])));
-  ("Identity#-", (1%nat, (Some [CopyFromInput 0])));
-  ("ArgMax#axis=i:1", (1%nat, (Some [CopyFromInput 0])));
-  ("ArgMin#axis=i:1", (1%nat, (Some [Fixed (VTensor DInt32)])));
-  ("Abs#-", (1%nat, (Some [CopyFromInput 0])));
-  ("Acos#-", (1%nat, (Some [CopyFromInput 0])));
-  ("Acosh#-", (1%nat, (Some [CopyFromInput 0])));
-  ("Asin#-", (1%nat, (Some [CopyFromInput 0])));
-  ("Asinh#-", (1%nat, (Some [CopyFromInput 0])));
-  ("Atan#-", (1%nat, (Some [CopyFromInput 0])));
-  ("Atanh#-", (1%nat, (Some [CopyFromInput 0])));
-  ("Ceil#-", (1%nat, (Some [CopyFromInput 0])));
-  ("Clip#-", (1%nat, (Some [CopyFromInput 0])));
-  ("Cos#-", (1%nat, (Some [CopyFromInput 0])));
-  ("Cosh#-", (1%nat, (Some [CopyFromInput 0])));
-  ("Elu#-", (1%nat, (Some [CopyFromInput 0])));
-  ("Erf#-", (1%nat, (Some [CopyFromInput 0])));
-  ("Exp#-", (1%nat, (Some [CopyFromInput 0])));
-  ("Floor#-", (1%nat, (Some [CopyFromInput 0])));
-  ("Gelu#-", (1%nat, (Some [CopyFromInput 0])));
-  ("HardSigmoid#-", (1%nat, (Some [CopyFromInput 0])));
-  ("HardSwish#-", (1%nat, (Some [CopyFromInput 0])));
-  ("LeakyRelu#-", (1%nat, (Some [CopyFromInput 0])));
-  ("Log#-", (1%nat, (Some [CopyFromInput 0])));
-  ("Reciprocal#-", (1%nat, (Some [CopyFromInput 0])));
-  ("Relu#-", (1%nat, (Some [CopyFromInput 0])));
-  ("Sigmoid#-", (1%nat, (Some [CopyFromInput 0])));
-  ("Sin#-", (1%nat, (Some [CopyFromInput 0])));
-  ("Sinh#-", (1%nat, (Some [CopyFromInput 0])));
-  ("Softplus#-", (1%nat, (Some [CopyFromInput 0])));
-  ("Sqrt#-", (1%nat, (Some [CopyFromInput 0])));
-  ("Swish#-", (1%nat, (Some [CopyFromInput 0])));
-  ("Tan#-", (1%nat, (Some [CopyFromInput 0])));
-  ("Tanh#-", (1%nat, (Some [CopyFromInput 0])));
-  ("Softmax#-", (1%nat, (Some [Fixed (VTensor DInt32)])));
-  ("LogSoftmax#-", (1%nat, (Some [CopyFromInput 0])));
-  ("And#-", (1%nat, (Some [Fixed (VTensor DInt32)])));
-  ("Or#-", (1%nat, (Some [Fixed (VTensor DInt32)])));
-  ("Xor#-", (1%nat, (Some [Fixed (VTensor DInt32)])));
-  ("Greater#-", (1%nat, (Some [Fixed (VTensor DInt32)])));
-  ("GreaterOrEqual#-", (1%nat, (Some [Fixed (VTensor DInt32)])));
-  ("Less#-", (1%nat, (Some [Fixed (VTensor DInt32)])));
-  ("LessOrEqual#-", (1%nat, (Some [Fixed (VTensor DInt32)])));
-  ("Pow#-", (1%nat, (Some [CopyFromInput 0])));
-  ("Mod#-", (1%nat, (Some [CopyFromInput 0])));
-  ("Add#-", (1%nat, (Some [CopyFromInput 0])));
-  ("Sub#-", (1%nat, (Some [CopyFromInput 0])));
-  ("Mul#-", (1%nat, (Some [CopyFromInput 0])));
-  ("Div#-", (1%nat, (Some [CopyFromInput 0])));
-  ("Equal#-", (1%nat, (Some [Fixed (VTensor DInt32)])));
-  ("Max#-", (1%nat, (Some [CopyFromInput 0])));
-  ("Min#-", (1%nat, (Some [CopyFromInput 0])));
-  ("Sum#-", (1%nat, (Some [CopyFromInput 0])));
-  ("Mean#-", (1%nat, (Some [CopyFromInput 0])));
-  ("ReduceL1#keepdims=i:0", (1%nat, (Some [CopyFromInput 0])));
-  ("ReduceL2#keepdims=i:0", (1%nat, (Some [CopyFromInput 0])));
-  ("ReduceLogSum#keepdims=i:0", (1%nat, (Some [CopyFromInput 0])));
-  ("ReduceLogSumExp#keepdims=i:0", (1%nat, (Some [CopyFromInput 0])));
-  ("ReduceMax#keepdims=i:0", (1%nat, (Some [CopyFromInput 0])));
-  ("ReduceMean#keepdims=i:0", (1%nat, (Some [CopyFromInput 0])));
-  ("ReduceMin#keepdims=i:0", (1%nat, (Some [CopyFromInput 0])));
-  ("ReduceProd#keepdims=i:0", (1%nat, (Some [CopyFromInput 0])));
-  ("ReduceSum#keepdims=i:0", (1%nat, (Some [CopyFromInput 0])));
-  ("ReduceSumSquare#keepdims=i:0", (1%nat, (Some [CopyFromInput 0])));
-  ("Where#-", (1%nat, (Some [CopyFromInput 0])));
-  ("Neg#-", (1%nat, (Some [CopyFromInput 0])));
-  ("MatMul#-", (1%nat, (Some [Fixed (VTensor DFloat)])));
-  ("Gemm#-", (1%nat, (Some [CopyFromInput 0])));
-  ("Transpose#-", (1%nat, (Some [CopyFromInput 0])));
-  ("Flatten#-", (1%nat, (Some [CopyFromInput 0])));
-  ("Concat#axis=i:0", (1%nat, (Some [CopyFromInput 0])));
-  ("Gather#-", (1%nat, (Some [CopyFromInput 0])));
-  ("Squeeze#-", (1%nat, (Some [CopyFromInput 0])));
-  ("Unsqueeze#-", (1%nat, (Some [CopyFromInput 0])));
-  ("Reshape#-", (1%nat, (Some [CopyFromInput 0])));
-  ("Expand#-", (1%nat, (Some [CopyFromInput 0])));
-  ("Tile#-", (1%nat, (Some [CopyFromInput 0])));
-  ("Split#num_outputs=i:2", (2%nat, (Some [CopyFromInput 0; CopyFromInput 0])));
-  ("Pad#-", (1%nat, (Some [CopyFromInput 0])));
-  ("Slice#-", (1%nat, (Some [CopyFromInput 0])));
-  ("TopK#axis=i:1", (2%nat, (Some [CopyFromInput 0; Fixed (VTensor DInt32)])));
-  ("Range#-", (1%nat, (Some [CopyFromInput 0])));
-  ("OneHot#-", (1%nat, (Some [CopyFromInput 2])));
-  ("QuantizeLinear#-", (1%nat, (Some [CopyFromInput 2])));
-  ("DequantizeLinear#-", (1%nat, (Some [Fixed (VTensor DFloat)])));
-  ("QuantizeLinear#output_dtype=i:3", (1%nat, (Some [Fixed (VTensor DInt8)])));
-  ("DynamicQuantizeLinear#-", (3%nat, (Some [Fixed (VTensor DUInt8); Fixed (VTensor DFloat); Fixed (VTensor DUInt8)])));
-  ("SequenceEmpty#-", (1%nat, (Some [Fixed (VSeq DFloat)])));
-  ("SequenceEmpty#dtype=i:6", (1%nat, (Some [Fixed (VSeq DInt32)])));
-  ("SequenceConstruct#-", (1%nat, (Some [SequenceWithElementTypeOfInput 0])));
-  ("SplitToSequence#-", (1%nat, (Some [SequenceWithElementTypeOfInput 0])));
-  ("RandomUniform#shape=is:2;2", (1%nat, (Some [Fixed (VTensor DFloat)])));
-  ("RandomNormal#shape=is:2;2", (1%nat, (Some [Fixed (VTensor DFloat)])));
-  ("RandomUniformLike#-", (1%nat, (Some [Fixed (VTensor DFloat)])));
-  ("RandomNormalLike#-", (1%nat, (Some [Fixed (VTensor DFloat)])));
-  ("Multinomial#sample_size=i:2", (1%nat, (Some [Fixed (VTensor DInt32)])));
-  ("Mod#fmod=i:1", (1%nat, (Some [CopyFromInput 0])));
-  ("ReverseSequence#-", (1%nat, (Some [CopyFromInput 0])));
-  ("Scatter#-", (1%nat, (Some [CopyFromInput 0])));
-  ("BiasGelu@com.microsoft#-", (1%nat, (Some [CopyFromInput 0])));
-  ("FastGelu@com.microsoft#-", (1%nat, (Some [CopyFromInput 0])));
-  ("Gelu@com.microsoft#-", (1%nat, (Some [CopyFromInput 0])));
-  ("QuickGelu@com.microsoft#-", (1%nat, (Some [CopyFromInput 0])));
-  ("SimplifiedLayerNormalization#epsilon=f:0.00001", (1%nat, (Some [CopyFromInput 0])));
-  ("SkipSimplifiedLayerNormalization@com.microsoft#epsilon=f:0.00001", (1%nat, (Some [CopyFromInput 0])));
-  ("Einsum#equation=s:ii->i", (1%nat, (Some [CopyFromInput 0])));
-  ("NonMaxSuppression#-", (1%nat, (Some [Fixed (VTensor DInt32)])));
-  ("InstanceNormalization#-", (1%nat, (Some [CopyFromInput 0])));
-  ("SkipLayerNormalization@com.microsoft#epsilon=f:0.00001", (4%nat, (Some [CopyFromInput 0; CopyFromInput 0; CopyFromInput 0; CopyFromInput 0])));
-  ("Gather#axis=i:-1", (1%nat, (Some [CopyFromInput 0])));
-  ("ScatterND#-", (1%nat, (Some [CopyFromInput 0])));
-  ("GatherElements#axis=i:0", (1%nat, (Some [CopyFromInput 0])));
-  ("GlobalAveragePool#-", (1%nat, (Some [CopyFromInput 0])));
-  ("Gather#axis=i:0", (1%nat, (Some [CopyFromInput 0])));
-  ("CastLike#-", (1%nat, (Some [CopyFromInput 1])));
-  ("ConstantOfShape#value=t:f:1:2", (1%nat, (Some [Fixed (VTensor DFloat)])));
-  ("Reshape#allowzero=i:1", (1%nat, (Some [CopyFromInput 0])));
-  ("Dropout#-", (2%nat, (Some [CopyFromInput 0; Fixed (VTensor DInt32)])));
-  ("Gather#axis=i:2", (1%nat, (Some [CopyFromInput 0])));
-  ("Upsample#mode=s:nearest", (1%nat, (Some [CopyFromInput 0])));
-  ("Shape#start=i:-1&end=i:1", (1%nat, (Some [Fixed (VTensor DInt32)])));
-  ("ConvTranspose#kernel_shape=is:2;2&output_padding=is:1;1&strides=is:2;2", (1%nat, (Some [CopyFromInput 0])));
-  ("DepthToSpace#blocksize=i:2&mode=s:DCR", (1%nat, (Some [CopyFromInput 0])));
-  ("ConstantOfShape#value=t:i:1:3", (1%nat, (Some [Fixed (VTensor DInt32)])));
-  ("GridSample#-", (1%nat, (Some [CopyFromInput 0])));
-  ("ReduceLogSumExp#keepdims=i:1", (1%nat, (Some [CopyFromInput 0])));
-  ("LSTM#hidden_size=i:2", (3%nat, (Some [Fixed (VTensor DFloat); Fixed (VTensor DFloat); Fixed (VTensor DFloat)])));
-  ("MaxPool#kernel_shape=is:2;3&strides=is:2;2", (1%nat, (Some [CopyFromInput 0])));
-  ("Einsum#equation=s:...ij,...jk->...ik", (1%nat, (Some [CopyFromInput 0])));
-  ("ConvInteger#kernel_shape=is:2;2", (1%nat, (Some [Fixed (VTensor DInt32)])));
-  ("Gemm#transA=i:0&transB=i:0", (1%nat, (Some [CopyFromInput 0])));
-  ("RMSNormalization#axis=i:-1", (1%nat, (Some [CopyFromInput 0])));
-  ("LayerNormalization#axis=i:-1", (1%nat, (Some [CopyFromInput 0])));
-  ("ReduceMean#keepdims=i:1", (1%nat, (Some [CopyFromInput 0])));
-  ("Split#axis=i:0", (1%nat, (Some [CopyFromInput 0])));
-  ("Transpose#perm=is:0;1", (1%nat, (Some [CopyFromInput 0])));
-  ("Resize#mode=s:nearest", (1%nat, (Some [CopyFromInput 0])));
-  ("GatherElements#axis=i:1", (1%nat, (Some [CopyFromInput 0])));
-  ("GatherND#-", (1%nat, (Some [CopyFromInput 0])));
-  ("Gemm#transA=i:1&transB=i:0", (1%nat, (Some [CopyFromInput 0])));
-  ("GlobalMaxPool#-", (1%nat, (Some [CopyFromInput 0])));
-  ("MaxPool#kernel_shape=is:2;3&pads=is:1;1;1;1", (1%nat, (Some [CopyFromInput 0])));
-  ("Transpose#perm=is:0", (1%nat, (Some [CopyFromInput 0])));
-  ("Conv#kernel_shape=is:3;3&auto_pad=s:SAME_UPPER&dilations=is:2;1", (1%nat, (Some [CopyFromInput 0])));
-  ("Trilu#upper=i:0", (1%nat, (Some [CopyFromInput 0])));
-  ("PRelu#-", (1%nat, (Some [CopyFromInput 0])));
-  ("ScatterElements#axis=i:1", (1%nat, (Some [CopyFromInput 0])));
-  ("Transpose#perm=is:1;3;0;2", (1%nat, (Some [CopyFromInput 0])));
-  ("Resize#mode=s:linear", (1%nat, (Some [CopyFromInput 0])));
-  ("Split#axis=i:0", (2%nat, (Some [CopyFromInput 0; CopyFromInput 0])));
-  ("Einsum#equation=s:bij,bjk->bik", (1%nat, (Some [CopyFromInput 0])));
-  ("Conv#kernel_shape=is:2;2&pads=is:1;1;1;1", (1%nat, (Some [CopyFromInput 0])));
-  ("LpNormalization#axis=i:-1", (1%nat, (Some [CopyFromInput 0])));
-  ("Concat#axis=i:-3", (1%nat, (Some [CopyFromInput 0])));
-  ("Einsum#equation=s:ij,j->i", (1%nat, (Some [CopyFromInput 0])));
-  ("Gather#axis=i:-2", (1%nat, (Some [CopyFromInput 0])));
-  ("CumSum#-", (1%nat, (Some [CopyFromInput 0])));
-  ("Concat#axis=i:1", (1%nat, (Some [CopyFromInput 0])));
-  ("LSTM#hidden_size=i:2&direction=s:bidirectional", (3%nat, (Some [Fixed (VTensor DFloat); Fixed (VTensor DFloat); Fixed (VTensor DFloat)])));
-  ("Transpose#perm=is:3;1;0;2", (1%nat, (Some [CopyFromInput 0])));
-  ("Split#axis=i:0", (3%nat, (Some [CopyFromInput 0; CopyFromInput 0; CopyFromInput 0])));
-  ("OneHot#axis=i:0", (1%nat, (Some [CopyFromInput 2])));
-  ("Gather#axis=i:-3", (1%nat, (Some [CopyFromInput 0])));
-  ("Gather#axis=i:1", (1%nat, (Some [CopyFromInput 0])));
-  ("ArgMax#axis=i:-1&keepdims=i:1", (1%nat, (Some [CopyFromInput 0])));
-  ("Trilu#upper=i:1", (1%nat, (Some [CopyFromInput 0])));
-  ("Transpose#perm=is:1;2;3;0", (1%nat, (Some [CopyFromInput 0])));
-  ("Concat#axis=i:-1", (1%nat, (Some [CopyFromInput 0])));
-  ("MatMulInteger#-", (1%nat, (Some [Fixed (VTensor DInt32)])));
-  ("ReduceProd#keepdims=i:0&noop_with_empty_axes=i:1", (1%nat, (Some [CopyFromInput 0])));
-  ("GRU#hidden_size=i:2&direction=s:bidirectional", (2%nat, (Some [Fixed (VTensor DFloat); Fixed (VTensor DFloat)])));
-  ("Transpose#perm=is:2;1;0;3", (1%nat, (Some [CopyFromInput 0])));
-  ("Conv#kernel_shape=is:1;1&strides=is:2;2&dilations=is:2;1", (1%nat, (Some [CopyFromInput 0])));
-  ("GRU#hidden_size=i:2", (2%nat, (Some [Fixed (VTensor DFloat); Fixed (VTensor DFloat)])));
-  ("TopK#axis=i:0", (2%nat, (Some [CopyFromInput 0; Fixed (VTensor DInt32)])));
-  ("ConvTranspose#kernel_shape=is:2;2", (1%nat, (Some [CopyFromInput 0])));
-  ("ArgMax#axis=i:-1&keepdims=i:0", (1%nat, (Some [CopyFromInput 0])));
-  ("Transpose#perm=is:1;2;0", (1%nat, (Some [CopyFromInput 0])));
-  ("Gemm#transA=i:1&transB=i:1", (1%nat, (Some [CopyFromInput 0])));
-  ("Transpose#perm=is:", (1%nat, (Some [CopyFromInput 0])));
-  ("Split#axis=i:0&num_outputs=i:3", (3%nat, (Some [CopyFromInput 0; CopyFromInput 0; CopyFromInput 0])));
-  ("ReduceMin#keepdims=i:1", (1%nat, (Some [CopyFromInput 0])));
-  ("ReduceL1#keepdims=i:1", (1%nat, (Some [CopyFromInput 0])));
-  ("ScatterElements#axis=i:0", (1%nat, (Some [CopyFromInput 0])))
+  ("QuantizeLinear#-", (1%nat, (Some [CopyFromInput 2])))
 ].
